@@ -19,6 +19,7 @@ pub fn profile(name: &str) -> Option<GenFn> {
         "faults" => genp::faults,
         "registry" => genp::registry,
         "broker" => genp::broker,
+        "burst" => genp::burst,
         "svcfaults" => genp::svcfaults,
         _ => return None,
     })
